@@ -1148,6 +1148,11 @@ def run(ctx):
         hists.append(h)
         ctx.case(repr(h.items), True)
     d4_stream(ctx, g)
+    # members replaced by their equal-UUID twins of another load through the list interface (item / slice assignment, append,
+    # remove): contents, UUID tables and the exceptions of later calls against Model/TwinCache.v
+    import twinleg
+    for _ in range(25 if ctx.quick else 500):
+        twinleg.modules_scenario(ctx, g, ctx.rng, 20 if ctx.quick else 40, "not-like-builtin:twin-replacement")
     exhaustive_small_list(ctx, g)
     readonly_against_model(ctx, g, ctx.rng)
     set_algebra_against_model(ctx, g)
